@@ -24,7 +24,8 @@ package secretstore
 //@ spec func dck_ck(b Bytes) Bytes
 //@ spec func dck_ctr(b Bytes) Int
 //@ spec func is_dck(b Bytes) Bool
-//@ axiom dck_roundtrip: forall c Bytes, n {enc_dck(c, n)} :: is_dck(enc_dck(c, n)) && dck_ck(enc_dck(c, n)) == c && dck_ctr(enc_dck(c, n)) == n
+//@ axiom dck_roundtrip: forall c Bytes, n {enc_dck(c, n)} :: 0 <= n && n < 18446744073709551616 ==> is_dck(enc_dck(c, n)) && dck_ck(enc_dck(c, n)) == c && dck_ctr(enc_dck(c, n)) == n
+//@ axiom dck_ctr_range: forall b Bytes {dck_ctr(b)} :: 0 <= dck_ctr(b) && dck_ctr(b) < 18446744073709551616
 //@ axiom headers_inj: forall c1, d1 Bytes, s1 Bytes, c2, d2 Bytes, s2 Bytes {enc_headers(c1, d1, s1), enc_headers(c2, d2, s2)} ::
 //@     enc_headers(c1, d1, s1) == enc_headers(c2, d2, s2) ==> c1 == c2 && d1 == d2 && s1 == s2
 
@@ -94,7 +95,8 @@ package secretstore
 //@ spec func env_hdr(b Bytes) Bytes
 //@ spec func env_msg(b Bytes) Bytes
 //@ spec func env_nonce(b Bytes) Bytes
-//@ axiom headers_roundtrip: forall c, d Bytes, s Bytes {enc_headers(c, d, s)} :: hdr_ctr(enc_headers(c, d, s)) == c && hdr_dev(enc_headers(c, d, s)) == d && hdr_sig(enc_headers(c, d, s)) == s
+//@ axiom hdr_ctr_range: forall b Bytes {hdr_ctr(b)} :: 0 <= hdr_ctr(b) && hdr_ctr(b) < 18446744073709551616
+//@ axiom headers_roundtrip: forall c, d Bytes, s Bytes {enc_headers(c, d, s)} :: 0 <= c && c < 18446744073709551616 ==> hdr_ctr(enc_headers(c, d, s)) == c && hdr_dev(enc_headers(c, d, s)) == d && hdr_sig(enc_headers(c, d, s)) == s
 //@ axiom envelope_roundtrip: forall h Bytes, m Bytes, n Bytes {enc_envelope(h, m, n)} :: env_hdr(enc_envelope(h, m, n)) == h && env_msg(enc_envelope(h, m, n)) == m && env_nonce(enc_envelope(h, m, n)) == n
 
 //@ extern google.golang.org/protobuf/proto.Unmarshal(b, m) (err)
@@ -268,6 +270,7 @@ package secretstore
 //@ func (*secretStore).preComputeNextKey
 //@   for C02, C09, C10, C14
 //@   requires s != nil ==> s.datastore != nil && s.logger != nil
+//@   requires [C09.lock.held] s != nil ==> locked(addr(s.messageMutex))
 //@   requires groupPublicKey != nil
 //@   modifies dsv(s.datastore), dsh(s.datastore)
 //@   ensures [C02.next.result] ret1 == nil ==> s != nil && devicePublicKey != nil && old(dsh(s.datastore))[k_ck(pkv(groupPublicKey), pkv(devicePublicKey))] && ret0 != nil && fresh(ret0)
@@ -284,6 +287,7 @@ package secretstore
 //@ func (*secretStore).updateCurrentKey
 //@   for C02, C09, C10
 //@   requires s != nil ==> s.datastore != nil
+//@   requires [C09.lock.held] s != nil ==> locked(addr(s.messageMutex))
 //@   requires groupPublicKey != nil && devicePublicKey != nil && deviceChainKey != nil
 //@   modifies dsv(s.datastore), dsh(s.datastore)
 //@   ensures [C09.update.skip] ret0 == nil && deviceChainKey.Counter < old(ckctr(s, pkv(groupPublicKey), pkv(devicePublicKey))) ==>
@@ -294,3 +298,151 @@ package secretstore
 //@   ensures [C09.update.monotone] s != nil ==> ckctr(s, pkv(groupPublicKey), pkv(devicePublicKey)) >= old(ckctr(s, pkv(groupPublicKey), pkv(devicePublicKey)))
 //@   ensures [C09.update.fail] ret0 != nil && s != nil ==> dsh(s.datastore) == old(dsh(s.datastore)) && dsv(s.datastore) == old(dsv(s.datastore))
 //@   ensures ret0 == nil ==> s != nil && old(dsh(s.datastore))[k_ck(pkv(groupPublicKey), pkv(devicePublicKey))]
+
+
+//@ func (*secretStore).deriveDeviceChainKey
+//@   for C09, C10
+//@   requires s != nil ==> s.datastore != nil && s.logger != nil
+//@   requires [C09.lock.held] s != nil ==> locked(addr(s.messageMutex))
+//@   requires group != nil
+//@   requires s != nil && devicePublicKey != nil ==> ckctr(s, bytes(group.PublicKey), pkv(devicePublicKey)) < 18446744073709551615
+//@   modifies dsv(s.datastore), dsh(s.datastore)
+//@   ensures [C09.derive.chainkey] ret0 == nil ==> s != nil && devicePublicKey != nil && old(dsh(s.datastore))[k_ck(bytes(group.PublicKey), pkv(devicePublicKey))]
+//@     && dsh(s.datastore)[k_ck(bytes(group.PublicKey), pkv(devicePublicKey))]
+//@     && dsv(s.datastore)[k_ck(bytes(group.PublicKey), pkv(devicePublicKey))] ==
+//@          enc_dck(kdf_ck(old(ckval(s, bytes(group.PublicKey), pkv(devicePublicKey))), bempty, bytes(group.PublicKey)), old(ckctr(s, bytes(group.PublicKey), pkv(devicePublicKey))) + 1)
+//@   ensures [C09.derive.nextkey] ret0 == nil ==>
+//@        dsh(s.datastore)[k_pre(bytes(group.PublicKey), pkv(devicePublicKey), old(ckctr(s, bytes(group.PublicKey), pkv(devicePublicKey))) + 1)]
+//@     && dsv(s.datastore)[k_pre(bytes(group.PublicKey), pkv(devicePublicKey), old(ckctr(s, bytes(group.PublicKey), pkv(devicePublicKey))) + 1)]
+//@          == kdf_mk(old(ckval(s, bytes(group.PublicKey), pkv(devicePublicKey))), bempty, bytes(group.PublicKey))
+//@   ensures [C09.derive.frame] s != nil && devicePublicKey != nil ==> (forall k Bytes {dsh(s.datastore)[k]} ::
+//@        k != k_pre(bytes(group.PublicKey), pkv(devicePublicKey), old(ckctr(s, bytes(group.PublicKey), pkv(devicePublicKey))) + 1)
+//@        && k != k_ck(bytes(group.PublicKey), pkv(devicePublicKey))
+//@        ==> dsh(s.datastore)[k] == old(dsh(s.datastore))[k] && dsv(s.datastore)[k] == old(dsv(s.datastore))[k])
+
+//@ trusted func (*deviceKeystore).memberDeviceForGroup
+//@   ensures ret1 == nil ==> omdOK(ret0) && fresh(ret0)
+//@   ensures ret1 != nil ==> ret0 == nil
+
+//@ func (*secretStore).SealEnvelope
+//@   for C09, C10
+//@   at (*secretStore).getDeviceChainKeyForGroupAndDevice requires [C09.lock.read-under-lock] locked(addr(s.messageMutex))
+//@   requires s != nil ==> s.datastore != nil && s.logger != nil && unlocked(addr(s.messageMutex))
+//@   requires s != nil && group != nil ==> (forall d Bytes {k_ck(bytes(group.PublicKey), d)} :: dck_ctr(dsv(s.datastore)[k_ck(bytes(group.PublicKey), d)]) < 18446744073709551615)
+//@   modifies dsv(s.datastore), dsh(s.datastore), lockstate(addr(s.messageMutex)), lockgen(addr(s.messageMutex))
+//@   ensures [C09.seal.unlock] s != nil ==> unlocked(addr(s.messageMutex))
+//@   ensures [C09.lock.single-section] ret1 == nil ==> lockgen(addr(s.messageMutex)) == old(lockgen(addr(s.messageMutex))) + 1
+//@   ensures [C09.seal.counter] ret1 == nil ==> exists dev Bytes, sk Bytes, n Bytes :: dev == pubof(sk) && blen(n) == 24
+//@     && old(dsh(s.datastore))[k_ck(bytes(group.PublicKey), dev)]
+//@     && bytes(ret0) == enc_envelope(
+//@          sbox_seal(enc_headers(old(ckctr(s, bytes(group.PublicKey), dev)) + 1, dev, sign(sk, bytes(messagePayload))), n, secret32(bytes(group.Secret))),
+//@          sbox_seal(bytes(messagePayload), nonce_of(old(ckctr(s, bytes(group.PublicKey), dev)) + 1), kdf_mk(old(ckval(s, bytes(group.PublicKey), dev)), bempty, bytes(group.PublicKey))),
+//@          n)
+//@     && dsv(s.datastore)[k_ck(bytes(group.PublicKey), dev)] == enc_dck(kdf_ck(old(ckval(s, bytes(group.PublicKey), dev)), bempty, bytes(group.PublicKey)), old(ckctr(s, bytes(group.PublicKey), dev)) + 1)
+
+//@ # ======================= opening =======================
+//@ func (*secretStore).OpenEnvelopeHeaders
+//@   for C01
+//@   safety
+//@   requires g != nil
+//@   ensures [C01.headers.open] ret2 == nil ==> ret0 != nil && ret1 != nil && blen(env_nonce(bytes(data))) == 24
+//@     && sbox_ok(env_hdr(bytes(data)), env_nonce(bytes(data)), secret32(bytes(g.Secret)))
+//@     && ret1.Counter == hdr_ctr(sbox_msg(env_hdr(bytes(data)), env_nonce(bytes(data)), secret32(bytes(g.Secret))))
+//@     && bytes(ret1.DevicePk) == hdr_dev(sbox_msg(env_hdr(bytes(data)), env_nonce(bytes(data)), secret32(bytes(g.Secret))))
+//@     && bytes(ret1.Sig) == hdr_sig(sbox_msg(env_hdr(bytes(data)), env_nonce(bytes(data)), secret32(bytes(g.Secret))))
+//@     && bytes(ret0.Message) == env_msg(bytes(data))
+//@   ensures [C01.headers.reject] !sbox_ok(env_hdr(bytes(data)), env_nonce(bytes(data)), secret32(bytes(g.Secret))) ==> ret2 != nil
+
+//@ extern berty.tech/weshnet/v2/pkg/cryptoutil.NonceSliceToArray(nonceSlice) (arr, err)
+//@   ensures err == nil ==> arr != nil && fresh(arr) && len(nonceSlice) == 24 && bytes(arr) == bytes(nonceSlice)
+//@   ensures len(nonceSlice) != 24 ==> err != nil
+
+//@ func (*secretStore).openPayload
+//@   for C01, C02
+//@   safety
+//@   requires s != nil ==> s.datastore != nil
+//@   requires groupPublicKey != nil && msgHeaders != nil
+//@   ensures [C01.open.key] ret2 == nil ==> s != nil && ret1 != nil && ret1.messageKey != nil && ret1.cid.str == msgCID.str
+//@     && (!ret1.newlyDecrypted ==> msgCID.str != bempty && dsh(s.datastore)[k_cid(msgCID.str)] && bytes(ret1.messageKey) == dsv(s.datastore)[k_cid(msgCID.str)])
+//@     && (ret1.newlyDecrypted ==> len(msgHeaders.DevicePk) == 32 && dsh(s.datastore)[k_pre(pkv(groupPublicKey), bytes(msgHeaders.DevicePk), msgHeaders.Counter)]
+//@           && bytes(ret1.messageKey) == dsv(s.datastore)[k_pre(pkv(groupPublicKey), bytes(msgHeaders.DevicePk), msgHeaders.Counter)])
+//@   ensures [C01.open.clear] ret2 == nil ==> sbox_ok(bytes(payload), nonce_of(msgHeaders.Counter), bytes(ret1.messageKey))
+//@     && bytes(ret0) == sbox_msg(bytes(payload), nonce_of(msgHeaders.Counter), bytes(ret1.messageKey))
+//@   ensures [C01.open.attribution] ret2 == nil && ret1.newlyDecrypted ==> verify(bytes(msgHeaders.DevicePk), bytes(ret0), bytes(msgHeaders.Sig))
+
+//@ func (*secretStore).postDecryptActions
+//@   for C02, C10
+//@   requires s != nil ==> s.datastore != nil && s.logger != nil && locked(addr(s.messageMutex))
+//@   requires groupPublicKey != nil && msgHeaders != nil
+//@   requires decryptionCtx != nil ==> decryptionCtx.messageKey != nil
+//@   modifies dsv(s.datastore), dsh(s.datastore)
+//@   ensures [C02.post.nop] ret0 == nil && (decryptionCtx == nil || !decryptionCtx.newlyDecrypted) && s != nil ==>
+//@        dsh(s.datastore) == old(dsh(s.datastore)) && dsv(s.datastore) == old(dsv(s.datastore))
+//@   ensures [C02.post.cid] ret0 == nil && decryptionCtx != nil && decryptionCtx.newlyDecrypted && decryptionCtx.cid.str != bempty ==>
+//@        dsh(s.datastore)[k_cid(decryptionCtx.cid.str)] && dsv(s.datastore)[k_cid(decryptionCtx.cid.str)] == bytes(decryptionCtx.messageKey)
+//@   ensures [C02.post.consumed] ret0 == nil && decryptionCtx != nil && decryptionCtx.newlyDecrypted
+//@        && (msgHeaders.Counter != (old(ckctr(s, pkv(groupPublicKey), bytes(msgHeaders.DevicePk))) + 1) % 18446744073709551616) ==>
+//@        !dsh(s.datastore)[k_pre(pkv(groupPublicKey), bytes(msgHeaders.DevicePk), msgHeaders.Counter)]
+//@   ensures [C02.post.slide] ret0 == nil && decryptionCtx != nil && decryptionCtx.newlyDecrypted ==>
+//@        dsh(s.datastore)[k_pre(pkv(groupPublicKey), bytes(msgHeaders.DevicePk), (old(ckctr(s, pkv(groupPublicKey), bytes(msgHeaders.DevicePk))) + 1) % 18446744073709551616)]
+//@     && dsv(s.datastore)[k_pre(pkv(groupPublicKey), bytes(msgHeaders.DevicePk), (old(ckctr(s, pkv(groupPublicKey), bytes(msgHeaders.DevicePk))) + 1) % 18446744073709551616)]
+//@          == kdf_mk(old(ckval(s, pkv(groupPublicKey), bytes(msgHeaders.DevicePk))), bempty, pkv(groupPublicKey))
+//@   ensures [C02.post.frame] s != nil ==> (forall k Bytes {dsh(s.datastore)[k]} ::
+//@        k != k_cid(decryptionCtx.cid.str) && k != k_ck(pkv(groupPublicKey), bytes(msgHeaders.DevicePk))
+//@        && k != k_pre(pkv(groupPublicKey), bytes(msgHeaders.DevicePk), msgHeaders.Counter)
+//@        && k != k_pre(pkv(groupPublicKey), bytes(msgHeaders.DevicePk), (old(ckctr(s, pkv(groupPublicKey), bytes(msgHeaders.DevicePk))) + 1) % 18446744073709551616)
+//@        ==> dsh(s.datastore)[k] == old(dsh(s.datastore))[k] && dsv(s.datastore)[k] == old(dsv(s.datastore))[k])
+//@   ensures [C09.post.monotone] s != nil ==> ckctr(s, pkv(groupPublicKey), bytes(msgHeaders.DevicePk)) >= old(ckctr(s, pkv(groupPublicKey), bytes(msgHeaders.DevicePk)))
+
+//@ alias EMSG = "*berty.tech/weshnet/v2/pkg/protocoltypes.EncryptedMessage"
+//@ spec func emsg_plain(b Bytes) Bytes
+//@ extern google.golang.org/protobuf/proto.Unmarshal(b, m) (err)
+//@   modifies as(m, $EMSG).Plaintext
+//@   ensures typeis(m, $EMSG) && err == nil ==> bytes(as(m, $EMSG).Plaintext) == emsg_plain(bytes(b))
+
+//@ func (*secretStore).OpenEnvelopePayload
+//@   for C01, C02, C09, C10
+//@   requires s != nil && s.datastore != nil && s.logger != nil && unlocked(addr(s.messageMutex))
+//@   requires msgEnvelope != nil && msgHeaders != nil && groupPublicKey != nil
+//@   modifies dsv(s.datastore), dsh(s.datastore), lockstate(addr(s.messageMutex)), lockgen(addr(s.messageMutex))
+//@   ensures [C09.open.unlock] unlocked(addr(s.messageMutex))
+//@   ensures [C09.lock.single-section] lockgen(addr(s.messageMutex)) == old(lockgen(addr(s.messageMutex))) + 1
+//@   ensures [C01.openenv.cached] ret1 == nil ==> ret0 != nil && (
+//@        (msgCID.str != bempty && old(dsh(s.datastore))[k_cid(msgCID.str)]
+//@           && sbox_ok(bytes(msgEnvelope.Message), nonce_of(msgHeaders.Counter), old(dsv(s.datastore))[k_cid(msgCID.str)])
+//@           && bytes(ret0.Plaintext) == emsg_plain(sbox_msg(bytes(msgEnvelope.Message), nonce_of(msgHeaders.Counter), old(dsv(s.datastore))[k_cid(msgCID.str)])))
+//@     || (len(msgHeaders.DevicePk) == 32 && old(dsh(s.datastore))[k_pre(pkv(groupPublicKey), bytes(msgHeaders.DevicePk), msgHeaders.Counter)]
+//@           && sbox_ok(bytes(msgEnvelope.Message), nonce_of(msgHeaders.Counter), old(dsv(s.datastore))[k_pre(pkv(groupPublicKey), bytes(msgHeaders.DevicePk), msgHeaders.Counter)])
+//@           && bytes(ret0.Plaintext) == emsg_plain(sbox_msg(bytes(msgEnvelope.Message), nonce_of(msgHeaders.Counter), old(dsv(s.datastore))[k_pre(pkv(groupPublicKey), bytes(msgHeaders.DevicePk), msgHeaders.Counter)]))
+//@           && verify(bytes(msgHeaders.DevicePk), sbox_msg(bytes(msgEnvelope.Message), nonce_of(msgHeaders.Counter), old(dsv(s.datastore))[k_pre(pkv(groupPublicKey), bytes(msgHeaders.DevicePk), msgHeaders.Counter)]), bytes(msgHeaders.Sig))))
+//@   ensures [C09.open.monotone] ckctr(s, pkv(groupPublicKey), bytes(msgHeaders.DevicePk)) >= old(ckctr(s, pkv(groupPublicKey), bytes(msgHeaders.DevicePk)))
+
+//@ # ======================= C01 as lemmas over the contracts above =======================
+//@ # what sealEnvelope returns, opened by OpenEnvelopeHeaders + openPayload with the sender's message key registered
+//@ lemma C01.roundtrip: forall payload Bytes, v Bytes, c, g Bytes, sk Bytes, n Bytes, sec Bytes :: 0 <= c && c < 18446744073709551616 ==>
+//@      env_nonce(enc_envelope(sbox_seal(enc_headers(c, pubof(sk), sign(sk, payload)), n, sec), sbox_seal(payload, nonce_of(c), kdf_mk(v, bempty, g)), n)) == n
+//@   && sbox_ok(env_hdr(enc_envelope(sbox_seal(enc_headers(c, pubof(sk), sign(sk, payload)), n, sec), sbox_seal(payload, nonce_of(c), kdf_mk(v, bempty, g)), n)), n, sec)
+//@   && hdr_ctr(sbox_msg(env_hdr(enc_envelope(sbox_seal(enc_headers(c, pubof(sk), sign(sk, payload)), n, sec), sbox_seal(payload, nonce_of(c), kdf_mk(v, bempty, g)), n)), n, sec)) == c
+//@   && hdr_dev(sbox_msg(env_hdr(enc_envelope(sbox_seal(enc_headers(c, pubof(sk), sign(sk, payload)), n, sec), sbox_seal(payload, nonce_of(c), kdf_mk(v, bempty, g)), n)), n, sec)) == pubof(sk)
+//@   && sbox_ok(env_msg(enc_envelope(sbox_seal(enc_headers(c, pubof(sk), sign(sk, payload)), n, sec), sbox_seal(payload, nonce_of(c), kdf_mk(v, bempty, g)), n)), nonce_of(c), kdf_mk(v, bempty, g))
+//@   && sbox_msg(env_msg(enc_envelope(sbox_seal(enc_headers(c, pubof(sk), sign(sk, payload)), n, sec), sbox_seal(payload, nonce_of(c), kdf_mk(v, bempty, g)), n)), nonce_of(c), kdf_mk(v, bempty, g)) == payload
+//@   && verify(pubof(sk), payload, hdr_sig(sbox_msg(env_hdr(enc_envelope(sbox_seal(enc_headers(c, pubof(sk), sign(sk, payload)), n, sec), sbox_seal(payload, nonce_of(c), kdf_mk(v, bempty, g)), n)), n, sec)))
+//@   for C01
+//@ # anything that opens under (nonce(counter), key) with a valid device signature IS the sealing of the signed message under that counter and key
+//@ lemma C01.reject_payload: forall ct Bytes, k Bytes, c, sk Bytes, sig Bytes ::
+//@      sbox_ok(ct, nonce_of(c), k) && verify(pubof(sk), sbox_msg(ct, nonce_of(c), k), sig)
+//@      ==> ct == sbox_seal(sbox_msg(ct, nonce_of(c), k), nonce_of(c), k) && sig == sign(sk, sbox_msg(ct, nonce_of(c), k))
+//@   for C01
+//@ # headers that open under the group secret are the sealing of exactly these headers under exactly this secret
+//@ lemma C01.reject_headers: forall h Bytes, n Bytes, sec Bytes, h2 Bytes, n2 Bytes, sec2 Bytes ::
+//@      sbox_ok(sbox_seal(h, n, sec), n2, sec2) ==> n == n2 && sec == sec2 && sbox_msg(sbox_seal(h, n, sec), n2, sec2) == h
+//@   for C01
+//@ lemma C01.nonce_injective: forall a, b :: 0 <= a && a < 18446744073709551616 && 0 <= b && b < 18446744073709551616 && nonce_of(a) == nonce_of(b) ==> a == b
+//@   for C01, C09
+//@ # KNOWN FINDING (B-13): the signature does not bind the counter. If it did, one signed payload could not be accepted under two counters.
+//@ lemma C01.sig_binds_attribution: forall sk Bytes, m Bytes, sig Bytes, c1, c2, k1 Bytes, k2 Bytes ::
+//@      0 <= c1 && c1 < 18446744073709551616 && 0 <= c2 && c2 < 18446744073709551616
+//@      && sbox_ok(sbox_seal(m, nonce_of(c1), k1), nonce_of(c1), k1) && verify(pubof(sk), sbox_msg(sbox_seal(m, nonce_of(c1), k1), nonce_of(c1), k1), sig)
+//@      && sbox_ok(sbox_seal(m, nonce_of(c2), k2), nonce_of(c2), k2) && verify(pubof(sk), sbox_msg(sbox_seal(m, nonce_of(c2), k2), nonce_of(c2), k2), sig)
+//@      ==> c1 == c2
+//@   for C01
